@@ -7,7 +7,7 @@
    Spec.v   : the value-type reference semantics (spec_step / spec_run : a wrapper is option N).
    All theorems quantify over ALL histories (no length bound) and both payload flavours z. *)
 From Common Require Import Prelude.
-From C09 Require Import Model Spec Env Proofs Proofs2 ProofsAny ProofsAny2 ProofsEnv.
+From C09 Require Import Model Spec Env Values Proofs Proofs2 ProofsAny ProofsAny2 ProofsEnv ProofsValues.
 Local Open Scope N_scope.
 
 (* ---- 1. one step of the storage machine realises one step of the value semantics, never a
@@ -312,6 +312,37 @@ Theorem optional_transfer_observable_for_user_copy_kinds : forall pk e j i,
 Proof. exact Proofs2.transfer_visible. Qed.
 Print Assumptions optional_transfer_observable_for_user_copy_kinds.
 
+(* ---- 16. value categories of the argument of a value operation.  The argument is an observable object of
+        the client (a named variable, Values.v; or the payload of another wrapper, AssignDeref / EmplaceDeref):
+        an LVALUE argument (const or not) and a prvalue copy are never modified; the const T& constructor
+        and the value assignment never modify their argument at all (value() = rhs copies even an xvalue);
+        only emplace / make_optional, which forward, move from an argument passed as an xvalue.  For the
+        wrapper store the operation is the plain value operation, so every history theorem applies. *)
+Theorem value_lvalue_source_unchanged : forall c s vs m i ty k cat o s' e vs',
+  vstep c s vs (VUse m i ty k cat) = VOk o s' e vs' ->
+  (cat <> VX -> forall n, vs' n = vs n) /\
+  (forall n, n <> k -> vs' n = vs n) /\
+  (vs' k <> vs k -> cat = VX /\ forwards m = true /\ mvz c = true /\ vs' k = Some 0).
+Proof. exact ProofsValues.lvalue_source_unchanged. Qed.
+Print Assumptions value_lvalue_source_unchanged.
+
+Theorem value_copying_members_never_move : forall c s vs m i ty k cat o s' e vs',
+  forwards m = false -> vstep c s vs (VUse m i ty k cat) = VOk o s' e vs' -> forall n, vs' n = vs n.
+Proof. exact ProofsValues.copying_members_never_move. Qed.
+Print Assumptions value_copying_members_never_move.
+
+Theorem value_use_is_plain_value_operation : forall c s vs m i ty k cat o s' e vs',
+  vstep c s vs (VUse m i ty k cat) = VOk o s' e vs' ->
+  exists v, vs k = Some v /\ step c s (use_op m i ty v) = SOk o s' e.
+Proof. exact ProofsValues.use_is_plain_op. Qed.
+Print Assumptions value_use_is_plain_value_operation.
+
+Theorem value_deref_source_unchanged : forall z h i j mv,
+  (r_store (run (fixed_cfg z) (h ++ [AssignDeref i j mv])) j = r_store (run (fixed_cfg z) h) j \/ i = j) /\
+  (i <> j -> r_store (run (fixed_cfg z) (h ++ [EmplaceDeref i j false])) j = r_store (run (fixed_cfg z) h) j).
+Proof. exact ProofsValues.deref_source. Qed.
+Print Assumptions value_deref_source_unchanged.
+
 (* ---- non-vacuity: concrete histories exercising the hypotheses / the interesting paths *)
 Example ex_assign_from_empty :
   r_outs (run (fixed_cfg true) [CtorValue 0 false 5; CtorDefault 1 false; AssignCopy 0 1; HasValue 0; Value 0]) =
@@ -392,3 +423,10 @@ Example ex_observed_kinds :
   observed PkDtorOnly e = [(KDefault, 1); (KDefault, 2); (KDtor, 1); (KDtor, 0); (KDtor, 2)] /\
   observed PkTrivial e = [].
 Proof. vm_compute. repeat split; reflexivity. Qed.
+
+Example ex_value_categories :
+  r_outs (run (fixed_cfg true) [CtorValue 0 false 20; CtorDefault 1 false; AssignDeref 1 0 false; Value 0; AssignDeref 1 0 true; Value 0;
+                                CtorDefault 2 false; EmplaceDeref 2 0 false; Value 0; EmplaceDeref 2 0 true; Value 0; Value 2; Value 1]) =
+  [Some OUnit; Some OUnit; Some OUnit; Some (OVal (Some 20)); Some OUnit; Some (OVal (Some 20));
+   Some OUnit; Some OUnit; Some (OVal (Some 20)); Some OUnit; Some (OVal (Some 0)); Some (OVal (Some 20)); Some (OVal (Some 20))].
+Proof. vm_compute. reflexivity. Qed.
